@@ -8,6 +8,7 @@ from lib.pyx import pyexn
 
 ID = "C19"
 GENERATORS = ["payload"]
+PROP_FILES = ["C19", "C19_floats"]
 PROP_FILE = "C19"
 CASE_DEPS = ["theories/CorrPayload.vo", "Generated/GenPayload.vo"]
 RULE = ("typed value sequences of length 0..8 (each of the 13 value types; integers from {min, min+1, -1, 0, 1, "
